@@ -23,6 +23,7 @@ struct VPtrL { int operator()(std::unique_ptr<long>) const; };
 struct VArrI { int operator()(std::unique_ptr<int[]>) const; };
 struct VStrU { int operator()(std::unique_ptr<char[]>) const; };
 struct VStrS { int operator()(std::string) const; };
+struct VAddr { unsigned long operator()(uintptr_t) const; };
 struct VC_int { int operator()(std::unique_ptr<int>) const; };
 struct VR_int { int operator()(std::unique_ptr<int[]>) const; };
 struct VC_long { int operator()(std::unique_ptr<long>) const; };
@@ -107,6 +108,38 @@ def cav_ptr_volatile_inst(tier):
                 root_pick=lambda tu, fn: find_func(tu, 'copy_and_verify', None, lambda f, rn: 'VPtrI' in f.get('mangledName', '') and '16tainted_volatile' in f.get('mangledName', '').split('15copy_and_verify')[0]),
                 replay={'kind': 'cav_ptr_refetch', 'no_inputs': True},
                 note='receiver in sandbox memory; assumes 8 readable guard bytes after the region (guard page), so that the pointee read of a pointer to the last bytes does not fault')
+
+
+def volatile_address_inst(which, el, esz, tier):
+    """address-with-extent out of a pointer that lives in sandbox memory: the address handed out is the one whose range was
+    checked, whatever the sandbox writes to the pointer cell between RLBox's reads (which: buffer_address | unverified_safe)"""
+    TV = cs('rlbox::tainted_volatile<%s *, rlbox::vsbx>' % el)
+    common = [('obj', '__CPROVER_requires(__CPROVER_r_ok((const struct %s *)$this, sizeof(struct %s)) && V_BACKEND_WF)' % (TV, TV)),
+              ('cell_inv', '__CPROVER_requires(V_IN(0, (uintptr_t)$this) && g_expect_example == 0)'),
+              ('sandbox_memory_is_one_object', '__CPROVER_requires(__CPROVER_r_ok(g_sbx_mem, V_SIZE[0] + 8) && (unsigned long)g_sbx_mem == V_BASE[0] && V_SIZE[1] == 0 && V_SIZE[0] <= 4096)')]
+    hm = MEM.replace('V_SIZE[0] = in_size;', 'V_SIZE[0] = in_size - 8;') + ('  __CPROVER_assume(in_size >= 64); struct %s *pp = (struct %s *)(mem + 8); unsigned long in_count; g_count = in_count; g_checked_start = 0; g_checked_bytes = 0;\n' % (TV, TV))
+    leaves = ['dynamic_check', CHECK_RANGE, 'vsbx.impl_is_in_same_sandbox', 'vsbx.impl_get_unsandboxed_pointer_no_ctx', 'find_sandbox_from_example']
+    ok = '(a == 0 || (a == g_checked_start && g_checked_bytes == g_count * %d))' % esz
+    if which == 'buffer_address':
+        stub = ('unsigned long verifier_stub(unsigned long a)\n__CPROVER_requires(%s) /*@address_handed_out_is_the_one_whose_range_was_checked*/\n'
+                '__CPROVER_ensures(g_vcalls == __CPROVER_old(g_vcalls) + 1 && __CPROVER_return_value == a)\n__CPROVER_assigns(g_vcalls);\n' % ok)
+        cl = common + [('fresh', '__CPROVER_requires(g_vcalls == 0)'), ('verifier_runs_once', '__CPROVER_ensures(g_vcalls == 1)'),
+                       ('frame', '__CPROVER_assigns(g_vcalls, g_checked_bytes, g_checked_start)')]
+        h = hm + '  g_vcalls = 0; struct S_VAddr vf;\n  unsigned long r = $ROOT((void *)pp, vf, in_count);\n'
+        return Inst('c09_buffer_address_volatile_receiver_%s' % el.replace(' ', '_'), 'tainted_volatile<%s*, vsbx>& p, VAddr verifier, size_t n' % el, 'p.copy_and_verify_buffer_address(verifier, n);', cl, h,
+                    leaves=leaves, prop=PROP, root_name='copy_and_verify_buffer_address', tier=tier, pre=GH + ' unsigned long g_count;\n', pre_defines=OBJVIEW, post_protos=stub,
+                    opts={'param_fn_stubs': {'*': 'verifier_stub'}, 'amp_star': True, 'volatile_read_check': True}, extra_replace=['verifier_stub'], nondet_volatile=True,
+                    root_pick=lambda tu, fn: find_func(tu, 'copy_and_verify_buffer_address', None, lambda f, rn: '16tainted_volatile' in f.get('mangledName', '').split('30copy_and_verify_buffer_address')[0]),
+                    note='pointer cell in sandbox memory, adversarial reads; element %s' % el)
+    a = '(uintptr_t)$ret'
+    cl = common + [('pointer_handed_out_is_the_one_whose_range_was_checked', '__CPROVER_ensures(%s)' % ok.replace('a ==', '%s ==' % a).replace('(a', '(%s' % a)),
+                   ('frame', '__CPROVER_assigns(g_checked_bytes, g_checked_start)')]
+    h = hm + '  const char reason[2] = "r";\n  void *r = (void *)$ROOT((void *)pp, in_count, &reason);\n'
+    return Inst('c09_unverified_safe_pointer_volatile_receiver_%s' % el.replace(' ', '_'), 'tainted_volatile<%s*, vsbx>& p, size_t n' % el, 'p.unverified_safe_pointer_because(n, "r");', cl, h,
+                leaves=leaves, prop=PROP, root_name='unverified_safe_pointer_because', tier=tier, pre=GH + ' unsigned long g_count;\n', pre_defines=OBJVIEW,
+                opts={'amp_star': True, 'volatile_read_check': True}, nondet_volatile=True,
+                root_pick=lambda tu, fn: find_func(tu, 'unverified_safe_pointer_because', None, lambda f, rn: '16tainted_volatile' in f.get('mangledName', '').split('31unverified_safe_pointer_because')[0]),
+                note='pointer cell in sandbox memory, adversarial reads; element %s' % el)
 
 
 def range_inst(tier):
@@ -248,7 +281,8 @@ def content_insts(tier):
 
 def units(tier):
     insts = [cav_ptr_inst('int', 'int', 4, tier), cav_ptr_inst('long', 'long', 4, tier), cav_ptr_volatile_inst(tier), range_inst(tier),
-             string_inst('uptr', 'tainted', tier), string_inst('std', 'tainted', tier), string_inst('uptr', 'tainted_volatile', tier)] + content_insts(tier)
+             string_inst('uptr', 'tainted', tier), string_inst('std', 'tainted', tier), string_inst('uptr', 'tainted_volatile', tier),
+             volatile_address_inst('buffer_address', 'long', 8, tier), volatile_address_inst('unverified_safe', 'int', 4, tier)] + content_insts(tier)
     if tier != 'quick':
         insts.append(string_inst('std', 'tainted_volatile', tier))
     return [Unit('C09_snapshots', insts, extra_cpp=EXTRA_CPP)]
